@@ -1207,6 +1207,10 @@ func (h *Handler) servePromQueryMetaDataWithMetricStore(w http.ResponseWriter, r
 }
 
 func (h *Handler) servePromCreateTSDB(w http.ResponseWriter, r *http.Request, user meta2.User) {
+	// Creating a TSDB creates a database: administrators only, like CREATE DATABASE.
+	if !h.requireAdmin(w, user) {
+		return
+	}
 	tsdb := mux.Vars(r)[TSDB]
 	var err error
 	if err := ValidataTSDB(tsdb); err != nil {
